@@ -8,7 +8,7 @@ import re
 import lib
 from props import cons as C
 
-NAMES = ['f0', 'a b', 'é', 'F_3', 'x.y']
+NAMES = ['f0', 'a b', 'é', 'F_3', 'x.y', 'f0_x']   # (f0_x: a name that extends another name with '_')
 
 
 def gen_case(rng):
